@@ -177,9 +177,9 @@ def sealUrl (P : Params) (key : Bytes) (now now2 : Int) (nonce : Bytes) (ep rq :
 
 inductive Err where
   | badPrefix | noNbf | noExp | noNonce | noReq | parseNbf | parseExp | decodeNonce
-  | nbfInvalid | expInvalid | decodeReq
-  | panicNonceLen   -- `cipher.AEAD.Open` panics when len(nonce) != NonceSize()
-  | openFail | parseUrl | pathMismatch
+  | nbfInvalid | expInvalid
+  | nonceLen        -- `len(nonce) != aesgcm.NonceSize()` (guards `cipher.AEAD.Open`, which would panic)
+  | decodeReq | openFail | parseUrl | pathMismatch
   deriving DecidableEq, Repr
 
 /-- `Unseal`: result = `(ret.Path, ret.RawQuery)`; the checks are in the order of the Go code. -/
@@ -203,10 +203,10 @@ def unsealUrl (P : Params) (key : Bytes) (now : Int) (u : Url) : Except Err (Byt
   | some nonce =>
   if now < nbf then .error .nbfInvalid else
   if now > exp then .error .expInvalid else
+  if nonce.length != nonceLen then .error .nonceLen else
   match P.b64.dec (qGet u.query (str "req")) with
   | none => .error .decodeReq
   | some reqBytes =>
-  if nonce.length != nonceLen then .error .panicNonceLen else
   match P.aead.openA key nonce (aadOf nbfStr expStr) reqBytes with
   | none => .error .openFail
   | some requestURI =>
